@@ -498,7 +498,13 @@ class Factory:
                 # the derive delivery form: what the user writes (attribute items in a per-case order), expanded by the proc
                 # macro inside rustc; the probes reach the same types as in the library form (names discovered above)
                 from .props.c02 import derive_source
-                text = support_code(c) + derive_source(c, "../in/%s.schema.%s" % (cid, c.get("schema_ext", "graphql")), "../in/%s.query.graphql" % cid)
+                warm = ""
+                if c.get("derive_warmup"):
+                    # an earlier derive of the same operation in the same crate (sibling module) whose non-neutral flag differs:
+                    # what one derive produced must not leak into the next
+                    c2 = dict(c, options=dict(c["options"], **c["derive_warmup"]))
+                    warm = "pub mod verif_warmup {\n#[allow(unused_imports)] use super::*;\n%s}\n" % derive_source(c2, "../in/%s.schema.%s" % (cid, c.get("schema_ext", "graphql")), "../in/%s.query.graphql" % cid)
+                text = support_code(c) + warm + derive_source(c, "../in/%s.schema.%s" % (cid, c.get("schema_ext", "graphql")), "../in/%s.query.graphql" % cid)
             else:
                 text = support_code(c) + g["pretty"]
             if not check_only:
